@@ -533,4 +533,601 @@ theorem pop_enc : ∀ v : Value, RT v := by
         (fun p hp => (depthPairs_le kvs d).mp hd p (List.mem_reverse.mp hp))]
       simp [mirror, mirrorPairsRev_eq]
 
+-- ------------------------------------------------------------------------------------------------
+-- the deque construction equals the recursive encoding
+-- ------------------------------------------------------------------------------------------------
+def DQ (v : Value) : Prop := ∀ (q : Bytes) (s : Nat), rdumpq q s v = (enc v ++ q, s + (enc v).length)
+
+theorem natDec_small : natDec 0 = [0x30] ∧ natDec 4 = [0x34] ∧ natDec 5 = [0x35] := by decide
+
+theorem rdumpItems_eq : ∀ (l : List Value), (∀ v ∈ l, DQ v) → ∀ q s,
+    rdumpItems q s l = (encList l ++ q, s + (encList l).length) := by
+  intro l
+  induction l with
+  | nil => intro _ q s; simp [rdumpItems, encList]
+  | cons v t ih =>
+    intro h q s
+    simp only [rdumpItems, ih (fun x hx => h x (by simp [hx])) q s, h v (by simp) _ _, encList,
+      List.append_assoc, List.length_append]
+    congr 1; omega
+
+theorem rdumpPairs_eq : ∀ (kvs : List (Value × Value)), (∀ p ∈ kvs, DQ p.1 ∧ DQ p.2) → ∀ q s,
+    rdumpPairs q s kvs = (encPairsRev kvs ++ q, s + (encPairsRev kvs).length) := by
+  intro kvs
+  induction kvs with
+  | nil => intro _ q s; simp [rdumpPairs, encPairsRev]
+  | cons p t ih =>
+    intro h q s
+    obtain ⟨k, v⟩ := p
+    obtain ⟨hk, hv⟩ := h (k, v) (by simp)
+    simp only [rdumpPairs, hv _ _, hk _ _, ih (fun x hx => h x (by simp [hx])) _ _, encPairsRev,
+      List.append_assoc, List.length_append]
+    congr 1; omega
+
+theorem rdumpq_eq : ∀ v : Value, DQ v := by
+  apply Value.ind
+  · intro q s; simp [rdumpq, enc, frame, natDec_small.1]
+  · intro b q s
+    cases b <;> simp [rdumpq, enc, frame, bTrue, bFalse, natDec_small.2.1, natDec_small.2.2]
+  · intro i q s
+    simp only [rdumpq, enc, frame_append, frame_length]
+    congr 1; omega
+  · intro t q s
+    simp only [rdumpq, enc, frame_append, frame_length]
+    congr 1; omega
+  · intro b q s
+    simp only [rdumpq, enc, frame_append, frame_length]
+    congr 1; omega
+  · intro b q s
+    simp only [rdumpq, enc, frame_append, frame_length]
+    congr 1; omega
+  · intro l ih q s
+    simp only [rdumpq, rdumpItems_eq l ih, enc, frame_append, frame_length]
+    have : s + 1 + (encList l).length - (s + 1) = (encList l).length := by omega
+    rw [this]
+    congr 1; omega
+  · intro kvs ih q s
+    simp only [rdumpq, rdumpPairs_eq kvs ih, enc, frame_append, frame_length]
+    have : s + 1 + (encPairsRev kvs).length - (s + 1) = (encPairsRev kvs).length := by omega
+    rw [this]
+    congr 1; omega
+
+-- ------------------------------------------------------------------------------------------------
+-- load on a frame
+-- ------------------------------------------------------------------------------------------------
+theorem pop_frame' (f d : Nat) (payload : Bytes) (tag : UInt8) (r : Bytes)
+    (h : (natDec payload.length).length ≤ maxStrDigits) :
+    pop (f + 1) d (frame payload tag ++ r) =
+      match parseTop f d tag payload with
+      | .ok v => .ok (v, r)
+      | .error e => .error e := by
+  rw [pop_frame _ _ _ _ _ h]
+  unfold parseTop
+  split
+  · split <;> simp_all
+  · split
+    · split <;> simp_all
+    · rfl
+
+theorem enc_is_frame (v : Value) : ∃ payload tag, enc v = frame payload tag := by
+  cases v <;> simp only [enc] <;> exact ⟨_, _, rfl⟩
+
+theorem takeWhile_digits : ∀ (ds : Bytes), (∀ c ∈ ds, isDigit c = true) → ∀ x rest, isDigit x = false →
+    (ds ++ x :: rest).takeWhile isDigit = ds ∧ (ds ++ x :: rest).dropWhile isDigit = x :: rest := by
+  intro ds
+  induction ds with
+  | nil => intro _ x rest hx; simp [List.takeWhile, List.dropWhile, hx]
+  | cons c t ih =>
+    intro hd x rest hx
+    have hc := hd c (by simp)
+    have := ih (fun c hc => hd c (by simp [hc])) x rest hx
+    simp [List.takeWhile, List.dropWhile, hc, this.1, this.2]
+
+theorem takeWhile_all_digits : ∀ (ds : Bytes), (∀ c ∈ ds, isDigit c = true) →
+    ds.takeWhile isDigit = ds ∧ ds.dropWhile isDigit = [] := by
+  intro ds
+  induction ds with
+  | nil => intro _; simp
+  | cons c t ih =>
+    intro hd
+    have hc := hd c (by simp)
+    have := ih (fun c hc => hd c (by simp [hc]))
+    simp [List.takeWhile, List.dropWhile, hc, this.1, this.2]
+
+theorem load_frame (m d : Nat) (payload : Bytes) (tag : UInt8) (r : Bytes)
+    (h12 : (natDec payload.length).length ≤ 12) :
+    load m d (frame payload tag ++ r) =
+      if payload.length > m then .error .memory else
+      match parseTop ((frame payload tag ++ r).length + 2) d tag payload with
+      | .ok v => .ok (v, r)
+      | .error e => .error e := by
+  have hne := natDec_ne_nil payload.length
+  have hcolon : isDigit 0x3a = false := by decide
+  have htw := takeWhile_digits (natDec payload.length) (natDec_digits _) 0x3a (payload ++ tag :: r) hcolon
+  generalize hS : (frame payload tag ++ r).length = L
+  rw [frame_append]
+  unfold load
+  have hnemp : (natDec payload.length ++ 0x3a :: (payload ++ tag :: r)).isEmpty = false := by
+    cases hh : natDec payload.length with
+    | nil => exact absurd hh hne
+    | cons _ _ => simp
+  have hdsemp : (natDec payload.length).isEmpty = false := by
+    cases hh : natDec payload.length with
+    | nil => exact absurd hh hne
+    | cons _ _ => simp
+  have hL : (natDec payload.length ++ 0x3a :: (payload ++ tag :: r)).length = L := by
+    rw [← hS, frame_append]
+  simp only [hnemp, Bool.false_eq_true, if_false, htw.1, htw.2, hdsemp, decVal_natDec, hL]
+  have : ¬ ((natDec payload.length).length > 12) := by omega
+  simp only [this, if_false, ne_eq, not_true_eq_false]
+  split
+  · rfl
+  · simp; rfl
+
+theorem pow12_le_sizeLimit : 10 ^ 12 ≤ sizeLimit := by
+  unfold sizeLimit maxStrDigits
+  exact Nat.pow_le_pow_right (by decide) (by decide)
+
+theorem load_enc (v : Value) (r : Bytes) (m d : Nat) (hwf : WF v) (h12 : (enc v).length < 10 ^ 12)
+    (hm : (enc v).length ≤ m) (hd : depth v ≤ d) : load m d (enc v ++ r) = .ok (mirror v, r) := by
+  obtain ⟨payload, tag, he⟩ := enc_is_frame v
+  have hsz : (enc v).length < sizeLimit := Nat.lt_of_lt_of_le h12 pow12_le_sizeLimit
+  have hpl : payload.length < (enc v).length := by rw [he, frame_length]; omega
+  have hd12 : (natDec payload.length).length ≤ 12 := natDec_len_le _ 12 (by decide) (by omega)
+  have hrt := pop_enc v r ((enc v ++ r).length + 2 + 1) d hwf hsz (by simp; omega) hd
+  rw [he] at hrt ⊢
+  rw [pop_frame' _ _ _ _ _ (span_ok _ (by omega))] at hrt
+  rw [load_frame m d payload tag r hd12]
+  have : ¬ payload.length > m := by omega
+  simp only [this, if_false]
+  cases hp : parseTop ((frame payload tag ++ r).length + 2) d tag payload with
+  | error e => rw [hp] at hrt; simp at hrt
+  | ok x => rw [hp] at hrt; simpa using hrt
+
+/-- reading a record that was cut anywhere strictly inside fails, and not with the end-of-file signal -/
+theorem load_prefix_err (m d : Nat) (payload : Bytes) (tag : UInt8) (q w : Bytes)
+    (h12 : (natDec payload.length).length ≤ 12) (hq : q ≠ []) (hw : w ≠ [])
+    (hqw : q ++ w = frame payload tag) :
+    ∃ e, load m d q = .error e ∧ e ≠ .emptyFile ∧ e ≠ .fuel := by
+  have hne := natDec_ne_nil payload.length
+  have hdig := natDec_digits payload.length
+  have hcolon : isDigit 0x3a = false := by decide
+  -- all-digit prefixes
+  have alldig : ∀ q : Bytes, q ≠ [] → (∀ c ∈ q, isDigit c = true) → q.length ≤ 12 →
+      load m d q = .error .value := by
+    intro q hq hd hl
+    have htw := takeWhile_all_digits q hd
+    have : q.isEmpty = false := by cases q <;> simp_all
+    unfold load
+    simp only [this, Bool.false_eq_true, if_false, htw.1, htw.2]
+    have : ¬ q.length > 12 := by omega
+    simp [this]
+  unfold frame at hqw
+  rcases List.append_eq_append_iff.mp hqw with ⟨a', h1, h2⟩ | ⟨c', h1, h2⟩
+  · -- q is a prefix of the digits
+    refine ⟨.value, alldig q hq ?_ ?_, by decide, by decide⟩
+    · intro c hc; exact hdig c (by rw [h1]; simp [hc])
+    · have := congrArg List.length h1; simp at this; omega
+  · cases c' with
+    | nil =>
+      simp at h1
+      refine ⟨.value, alldig q hq ?_ ?_, by decide, by decide⟩
+      · intro c hc; exact hdig c (by rw [← h1]; exact hc)
+      · rw [h1]; exact h12
+    | cons x c'' =>
+      simp only [List.cons_append, List.cons.injEq] at h2
+      obtain ⟨hx, hbody⟩ := h2
+      subst hx
+      have hlen : c''.length ≤ payload.length := by
+        have := congrArg List.length hbody
+        simp at this
+        have : 0 < w.length := List.length_pos_iff.mpr hw
+        omega
+      have htw := takeWhile_digits (natDec payload.length) hdig 0x3a c'' hcolon
+      have hdsemp : (natDec payload.length).isEmpty = false := by
+        cases hh : natDec payload.length with
+        | nil => exact absurd hh hne
+        | cons _ _ => simp
+      have hnemp : (natDec payload.length ++ 0x3a :: c'').isEmpty = false := by
+        cases hh : natDec payload.length with
+        | nil => exact absurd hh hne
+        | cons _ _ => simp
+      rw [h1]
+      unfold load
+      simp only [hnemp, Bool.false_eq_true, if_false, htw.1, htw.2, hdsemp, decVal_natDec]
+      have : ¬ ((natDec payload.length).length > 12) := by omega
+      simp only [this, if_false, ne_eq, not_true_eq_false]
+      by_cases hmm : payload.length > m
+      · exact ⟨.memory, by simp [hmm], by decide, by decide⟩
+      · refine ⟨.index, ?_, by decide, by decide⟩
+        have : c''.drop payload.length = [] := List.drop_eq_nil_of_le hlen
+        simp [hmm, this]
+
+-- ------------------------------------------------------------------------------------------------
+-- totality: the fuel of the model never runs out
+-- ------------------------------------------------------------------------------------------------
+theorem pyIntSM_nil : pyIntSM [] = none := by decide
+
+theorem splitColon_length : ∀ (data pre post : Bytes), splitColon data = some (pre, post) →
+    data.length = pre.length + 1 + post.length := by
+  intro data
+  induction data with
+  | nil => intro pre post h; simp [splitColon] at h
+  | cons c t ih =>
+    intro pre post h
+    simp only [splitColon] at h
+    split at h
+    · simp at h; obtain ⟨h1, h2⟩ := h; subst h1; subst h2; simp; omega
+    · cases hs : splitColon t with
+      | none => rw [hs] at h; simp at h
+      | some p =>
+        rw [hs] at h
+        simp at h
+        obtain ⟨h1, h2⟩ := h
+        have := ih p.1 p.2 (by rw [hs])
+        subst h1; subst h2; simp; omega
+
+theorem split_ok_length (data : Bytes) (sm : Bool × Nat) (body : Bytes)
+    (h : split data = .ok (sm, body)) : body.length + 2 ≤ data.length := by
+  unfold split at h
+  cases hs : splitColon data with
+  | none => rw [hs] at h; simp at h
+  | some p =>
+    obtain ⟨pre, post⟩ := p
+    rw [hs] at h
+    simp only [] at h
+    cases hp : pyIntSM pre with
+    | none => rw [hp] at h; simp at h
+    | some sm' =>
+      rw [hp] at h
+      simp only [Except.ok.injEq, Prod.mk.injEq] at h
+      have hpre : pre ≠ [] := by
+        intro hnil; rw [hnil, pyIntSM_nil] at hp; cases hp
+      have hl := splitColon_length data pre post hs
+      have : 0 < pre.length := List.length_pos_iff.mpr hpre
+      rw [← h.2]; omega
+
+theorem split_err (data : Bytes) (e : Err) (h : split data = .error e) : e = .value := by
+  unfold split at h
+  cases hs : splitColon data with
+  | none => rw [hs] at h; simp at h; exact h.symm
+  | some p =>
+    obtain ⟨pre, post⟩ := p
+    rw [hs] at h
+    simp only [] at h
+    cases hp : pyIntSM pre with
+    | none => rw [hp] at h; simp at h; exact h.symm
+    | some sm' => rw [hp] at h; simp at h
+
+theorem slice3_length (body : Bytes) (sm : Bool × Nat) (p : Bytes) (t : UInt8) (rem : Bytes)
+    (h : slice3 body sm = some (p, t, rem)) : p.length ≤ body.length ∧ rem.length ≤ body.length := by
+  unfold slice3 at h
+  simp only [] at h
+  split at h
+  · split at h
+    · simp at h
+    · simp only [Option.some.injEq, Prod.mk.injEq] at h
+      obtain ⟨h1, _, h3⟩ := h
+      subst h1; subst h3
+      simp [List.length_take, List.length_drop] <;> omega
+  · split at h
+    · simp at h
+    · split at h
+      · simp at h
+      · simp only [Option.some.injEq, Prod.mk.injEq] at h
+        obtain ⟨h1, _, h3⟩ := h
+        subst h1; subst h3
+        simp [List.length_take, List.length_drop] <;> omega
+
+theorem parseScalar_err (tag : UInt8) (data : Bytes) (e : Err) (h : parseScalar tag data = .error e) :
+    e = .value := by
+  unfold parseScalar at h
+  repeat' split at h
+  all_goals first | (simp at h; done) | (simp at h; exact h.symm) | (cases h; rfl)
+
+theorem pop_ok_length (f d : Nat) (data : Bytes) (v : Value) (rest : Bytes)
+    (h : pop f d data = .ok (v, rest)) : rest.length + 2 ≤ data.length := by
+  cases f with
+  | zero => simp [pop] at h
+  | succ f =>
+    simp only [pop] at h
+    cases hs : split data with
+    | error e => rw [hs] at h; simp at h
+    | ok p =>
+      obtain ⟨sm, body⟩ := p
+      rw [hs] at h
+      simp only [] at h
+      cases h3 : slice3 body sm with
+      | none => rw [h3] at h; simp at h
+      | some t =>
+        obtain ⟨payload, tag, remain⟩ := t
+        rw [h3] at h
+        simp only [] at h
+        have hb := split_ok_length data sm body hs
+        have hr := (slice3_length body sm payload tag remain h3).2
+        have : remain = rest := by
+          repeat' split at h
+          all_goals first | (simp at h; done) | (simp at h; exact h.2)
+        rw [← this]; omega
+
+theorem no_fuel : ∀ f,
+    (∀ d data, data.length + 1 ≤ f → pop f d data ≠ .error .fuel) ∧
+    (∀ d data, data.length + 2 ≤ f → popList f d data ≠ .error .fuel) ∧
+    (∀ d data, data.length + 2 ≤ f → popDict f d data ≠ .error .fuel) := by
+  intro f
+  induction f with
+  | zero =>
+    refine ⟨?_, ?_, ?_⟩ <;> intro d data hl <;> omega
+  | succ f ih =>
+    obtain ⟨ih1, ih2, ih3⟩ := ih
+    refine ⟨?_, ?_, ?_⟩
+    · intro d data hl hfuel
+      simp only [pop] at hfuel
+      cases hs : split data with
+      | error e =>
+        rw [hs] at hfuel
+        have := split_err data e hs
+        simp at hfuel; rw [hfuel] at this; cases this
+      | ok p =>
+        obtain ⟨sm, body⟩ := p
+        rw [hs] at hfuel
+        simp only [] at hfuel
+        cases h3 : slice3 body sm with
+        | none => rw [h3] at hfuel; simp at hfuel
+        | some t =>
+          obtain ⟨payload, tag, remain⟩ := t
+          rw [h3] at hfuel
+          simp only [] at hfuel
+          have hb := split_ok_length data sm body hs
+          have hp := (slice3_length body sm payload tag remain h3).1
+          split at hfuel
+          · cases hl2 : popList f d payload with
+            | ok l => rw [hl2] at hfuel; simp at hfuel
+            | error e =>
+              rw [hl2] at hfuel; simp at hfuel; rw [hfuel] at hl2
+              exact ih2 d payload (by omega) hl2
+          · split at hfuel
+            · cases hl2 : popDict f d payload with
+              | ok l => rw [hl2] at hfuel; simp at hfuel
+              | error e =>
+                rw [hl2] at hfuel; simp at hfuel; rw [hfuel] at hl2
+                exact ih3 d payload (by omega) hl2
+            · cases hl2 : parseScalar tag payload with
+              | ok l => rw [hl2] at hfuel; simp at hfuel
+              | error e =>
+                rw [hl2] at hfuel; simp at hfuel; rw [hfuel] at hl2
+                have := parseScalar_err _ _ _ hl2; cases this
+    · intro d data hl hfuel
+      cases data with
+      | nil => simp [popList] at hfuel
+      | cons c cs =>
+        simp only [popList] at hfuel
+        split at hfuel
+        · simp at hfuel
+        · cases hp : pop f (d - 1) (c :: cs) with
+          | error e =>
+            rw [hp] at hfuel; simp at hfuel; rw [hfuel] at hp
+            exact ih1 (d - 1) (c :: cs) (by omega) hp
+          | ok p =>
+            obtain ⟨item, rest⟩ := p
+            rw [hp] at hfuel
+            simp only [] at hfuel
+            have hr := pop_ok_length _ _ _ _ _ hp
+            cases hl2 : popList f d rest with
+            | ok l => rw [hl2] at hfuel; simp at hfuel
+            | error e =>
+              rw [hl2] at hfuel; simp at hfuel; rw [hfuel] at hl2
+              exact ih2 d rest (by omega) hl2
+    · intro d data hl hfuel
+      cases data with
+      | nil => simp [popDict] at hfuel
+      | cons c cs =>
+        simp only [popDict] at hfuel
+        split at hfuel
+        · simp at hfuel
+        · cases hp : pop f (d - 1) (c :: cs) with
+          | error e =>
+            rw [hp] at hfuel; simp at hfuel; rw [hfuel] at hp
+            exact ih1 (d - 1) (c :: cs) (by omega) hp
+          | ok p =>
+            obtain ⟨key, rest⟩ := p
+            rw [hp] at hfuel
+            simp only [] at hfuel
+            have hr := pop_ok_length _ _ _ _ _ hp
+            cases hp2 : pop f (d - 1) rest with
+            | error e =>
+              rw [hp2] at hfuel; simp at hfuel; rw [hfuel] at hp2
+              exact ih1 (d - 1) rest (by omega) hp2
+            | ok p2 =>
+              obtain ⟨val, rest2⟩ := p2
+              rw [hp2] at hfuel
+              simp only [] at hfuel
+              have hr2 := pop_ok_length _ _ _ _ _ hp2
+              split at hfuel
+              · simp at hfuel
+              · cases hl2 : popDict f d rest2 with
+                | ok l => rw [hl2] at hfuel; simp at hfuel
+                | error e =>
+                  rw [hl2] at hfuel; simp at hfuel; rw [hfuel] at hl2
+                  exact ih3 d rest2 (by omega) hl2
+
+theorem parseTop_no_fuel (f d : Nat) (tag : UInt8) (data : Bytes) (h : data.length + 2 ≤ f) :
+    parseTop f d tag data ≠ .error .fuel := by
+  intro hfuel
+  unfold parseTop at hfuel
+  split at hfuel
+  · cases hl2 : popList f d data with
+    | ok l => rw [hl2] at hfuel; simp at hfuel
+    | error e =>
+      rw [hl2] at hfuel; simp at hfuel; rw [hfuel] at hl2
+      exact (no_fuel f).2.1 d data h hl2
+  · split at hfuel
+    · cases hl2 : popDict f d data with
+      | ok l => rw [hl2] at hfuel; simp at hfuel
+      | error e =>
+        rw [hl2] at hfuel; simp at hfuel; rw [hfuel] at hl2
+        exact (no_fuel f).2.2 d data h hl2
+    · have := parseScalar_err _ _ _ hfuel; cases this
+
+/-- every error of `load` is one of the classes the reader's outer `except` names -/
+theorem load_err_caught (m d : Nat) (s : Bytes) (e : Err) (h : load m d s = .error e) :
+    caughtOuter e = true := by
+  unfold load at h
+  dsimp only at h
+  repeat' split at h
+  all_goals first | (simp at h; done) | (simp at h; rw [← h]; rfl) | skip
+  rename_i _ _ _ c body hdw _ _ _ _ tag rest hdrop _ e' hp
+  simp at h; subst h
+  have hlen : (List.take (decVal (List.takeWhile isDigit s)) body).length + 2 ≤ s.length + 2 := by
+    have h1 : (List.dropWhile isDigit s).length ≤ s.length := (List.dropWhile_sublist isDigit).length_le
+    rw [hdw] at h1
+    simp [List.length_take] at h1 ⊢
+    omega
+  have := parseTop_no_fuel _ d tag _ hlen
+  cases e' <;> first | rfl | (exact absurd hp this)
+
+theorem load_ok_length (m d : Nat) (s : Bytes) (v : Value) (rest : Bytes) (h : load m d s = .ok (v, rest)) :
+    rest.length + 2 ≤ s.length := by
+  unfold load at h
+  dsimp only at h
+  repeat' split at h
+  all_goals first | (simp at h; done) | skip
+  rename_i _ _ _ c body hdw _ _ _ _ tag rest' hdrop _ v' hp
+  have h1 : (List.dropWhile isDigit s).length ≤ s.length := (List.dropWhile_sublist isDigit).length_le
+  rw [hdw] at h1
+  have h2 : (tag :: rest').length ≤ body.length := by
+    rw [← hdrop]; simp [List.length_drop]
+  simp at h
+  rw [← h.2]
+  simp at h1 h2
+  omega
+
+-- ------------------------------------------------------------------------------------------------
+-- the reader loop over a sequence of records
+-- ------------------------------------------------------------------------------------------------
+/-- records `vs` standing at file positions i, i+1, …: each is a well-formed dict state within the reader's
+    limits and `from_state ∘ migrate_flow` turns it (as loaded) into the corresponding flow of `fl` -/
+def Good {α : Type} (env : Env α) : Nat → List Value → List α → Prop
+  | _, [], [] => True
+  | i, v :: vt, x :: xt =>
+    (WF v ∧ isDict v = true ∧ (enc v).length < 10 ^ 12 ∧ (enc v).length ≤ env.memLimit ∧ depth v ≤ env.depth
+      ∧ env.fromState i (mirror v) = .ok x) ∧ Good env (i + 1) vt xt
+  | _, _, _ => False
+
+theorem isDict_mirror (v : Value) : isDict (mirror v) = isDict v := by
+  cases v <;> simp [mirror, isDict]
+
+theorem Good.length {α : Type} (env : Env α) : ∀ (vs : List Value) (fl : List α) (i : Nat),
+    Good env i vs fl → vs.length = fl.length := by
+  intro vs
+  induction vs with
+  | nil => intro fl i h; cases fl <;> simp_all [Good]
+  | cons v vt ih =>
+    intro fl i h
+    cases fl with
+    | nil => simp [Good] at h
+    | cons x xt => simp only [Good] at h; simp [ih xt (i + 1) h.2]
+
+theorem stream_records {α : Type} (env : Env α) : ∀ (vs : List Value) (fl : List α) (i f : Nat)
+    (tail : Bytes) (res : End), Good env i vs fl →
+    (∀ g, 1 ≤ g → streamLoop env g (i + vs.length) tail = ([], res)) → vs.length + 1 ≤ f →
+    streamLoop env f i (encList vs ++ tail) = (fl, res) := by
+  intro vs
+  induction vs with
+  | nil =>
+    intro fl i f tail res hg htail hf
+    cases fl with
+    | nil => simpa [encList] using htail f (by omega)
+    | cons _ _ => simp [Good] at hg
+  | cons v vt ih =>
+    intro fl i f tail res hg htail hf
+    cases fl with
+    | nil => simp [Good] at hg
+    | cons x xt =>
+      simp only [Good] at hg
+      obtain ⟨⟨hwf, hdict, h12, hm, hd, hfs⟩, hrest⟩ := hg
+      cases f with
+      | zero => simp at hf
+      | succ f' =>
+        have henc : encList (v :: vt) ++ tail = enc v ++ (encList vt ++ tail) := by simp [encList]
+        rw [henc]
+        simp only [streamLoop, load_enc v _ env.memLimit env.depth hwf h12 hm hd, isDict_mirror, hdict,
+          Bool.not_true, Bool.false_eq_true, if_false, hfs]
+        have := ih xt (i + 1) f' tail res hrest
+          (by intro g hg1; have := htail g hg1; simpa [Nat.add_assoc, Nat.add_comm 1] using this)
+          (by simp at hf; omega)
+        rw [this]
+
+theorem streamLoop_nil {α : Type} (env : Env α) (g i : Nat) (h : 1 ≤ g) :
+    streamLoop env g i [] = ([], .clean) := by
+  cases g with
+  | zero => omega
+  | succ g => simp [streamLoop, load]
+
+theorem streamLoop_cut {α : Type} (env : Env α) (g i : Nat) (h : 1 ≤ g) (v : Value) (q w : Bytes)
+    (h12 : (enc v).length < 10 ^ 12) (hq : q ≠ []) (hw : w ≠ []) (hqw : q ++ w = enc v) :
+    streamLoop env g i q = ([], .flowRead) := by
+  obtain ⟨payload, tag, he⟩ := enc_is_frame v
+  have hpl : payload.length < (enc v).length := by rw [he, frame_length]; omega
+  have hd12 : (natDec payload.length).length ≤ 12 := natDec_len_le _ 12 (by decide) (by omega)
+  obtain ⟨e, hl, hne, _⟩ := load_prefix_err env.memLimit env.depth payload tag q w hd12 hq hw (by rw [hqw, he])
+  have hc := load_err_caught _ _ _ _ hl
+  cases g with
+  | zero => omega
+  | succ g => simp [streamLoop, hl, hne, hc]
+
+theorem enc_head_digit (v : Value) : ∃ c cs, enc v = c :: cs ∧ isDigit c = true := by
+  obtain ⟨payload, tag, he⟩ := enc_is_frame v
+  have hne := natDec_ne_nil payload.length
+  cases hh : natDec payload.length with
+  | nil => exact absurd hh hne
+  | cons c cs =>
+    refine ⟨c, cs ++ 0x3a :: (payload ++ [tag]), ?_, natDec_digits payload.length c (by simp [hh])⟩
+    rw [he, frame, hh]; simp
+
+theorem sniff_digit (c : UInt8) (cs : Bytes) (h : isDigit c = true) : sniff (c :: cs) = (false, c :: cs) := by
+  have h1 : c ≠ 0xef := by intro hc; subst hc; simp [isDigit] at h
+  have h2 : c ≠ 0x7b := by intro hc; subst hc; simp [isDigit] at h
+  have hb : ¬ (List.take 4 (c :: cs) = bom ++ [0x7b]) := by
+    intro heq
+    simp [bom] at heq
+    exact h1 heq.1
+  unfold sniff
+  simp only [hb, if_false, List.head?_cons, Option.some.injEq, h2, decide_false]
+
+theorem sniff_nil : sniff [] = (false, []) := by decide
+
+/-- the reader never runs out of model fuel and ends with `escapes` only if from_state raises a non-Exception -/
+theorem streamLoop_no_escape {α : Type} (env : Env α)
+    (hfs : ∀ i v, env.fromState i v ≠ .error .nonException) :
+    ∀ (f i : Nat) (s : Bytes), s.length + 1 ≤ f → (streamLoop env f i s).2 ≠ .escapes := by
+  intro f
+  induction f with
+  | zero => intro i s h; omega
+  | succ f ih =>
+    intro i s h
+    simp only [streamLoop]
+    cases hl : load env.memLimit env.depth s with
+    | error e =>
+      simp only []
+      have hc := load_err_caught _ _ _ _ hl
+      by_cases he : e = .emptyFile
+      · simp [he]
+      · simp [he, hc]
+    | ok p =>
+      obtain ⟨v, rest⟩ := p
+      simp only []
+      have hlen := load_ok_length _ _ _ _ _ hl
+      split
+      · simp
+      · cases hf : env.fromState i v with
+        | error x =>
+          cases x with
+          | valueError => simp
+          | exception => simp
+          | nonException => exact absurd hf (hfs i v)
+        | ok fl =>
+          simp only []
+          exact ih (i + 1) rest (by omega)
+
 end MitmVerif.C36
